@@ -1,8 +1,89 @@
-(* C15 - a stored BLOB reads back byte-for-byte.  Statements only. *)
-From Coq Require Import List NArith ZArith.
-From V Require Import Lib.Lex C15_Blob.Model.
+(* C15 - a stored BLOB reads back byte-for-byte whatever its size or input chunking.
+   Statements only; every proof is `exact <lemma>` into C15_Blob/Proofs.v. *)
+From Coq Require Import List NArith ZArith Lia.
+From V Require Import Lib.Lex Lib.SMap Storage.Spec Gen.Params C15_Blob.Model C15_Blob.Proofs.
 Import ListNotations.
+Local Open Scope N_scope.
 
-Example c15_placeholder : le_bytes 8 1 = [1;0;0;0;0;0;0;0]%N.
+(* side conditions on the constants the translator took from the Go source *)
+Lemma chunk_numbers_sort_in_write_order : blob_chunk_endian = BE.
 Proof. reflexivity. Qed.
-Print Assumptions c15_placeholder.
+Lemma bucket_size_positive : 1 <= blob_bucket_size.
+Proof. vm_compute. discriminate. Qed.
+
+Section C15.
+Context {A : Type} (aeqb : A -> A -> bool) (aeqb_refl : forall a, aeqb a a = true).
+
+(* For every list of Read() results (each 1..chunkSize bytes, any number below 2^64, any payload),
+   every key not yet used in the store, whatever else the store holds, persistent or temporary
+   (read before expiry), and a quota that admits the total: the write succeeds with the total
+   size and the read returns exactly the written chunks in order with the recorded size,
+   descriptor and Completed status. *)
+Theorem read_write_id :
+  forall (st : bstore A) k now now' descr dur quota (reads : list (chunk A)),
+  fresh_key st k ->
+  Forall (fun c => 1 <= clen c <= blob_chunk_size) reads ->
+  N.of_nat (length reads) + 3 < 2 ^ 64 ->
+  quota_ok quota (total_len reads) ->
+  alive now' (ins_exp k now dur) = true ->
+  exists st',
+    write_blob aeqb now st k descr dur quota reads EndEOF = (st', WOk (total_len reads)) /\
+    read_blob now' st' k = ROk (mkState descr (total_len reads) StCompleted false dur) reads.
+Proof. exact (read_write_id_proved aeqb aeqb_refl chunk_numbers_sort_in_write_order bucket_size_positive). Qed.
+
+(* A write refused by the quota, interrupted by a reader error or a cancelled context, or
+   refused at a chunk row is never readable as a complete BLOB, at any later time, from any
+   starting store. *)
+Theorem interrupted_not_complete :
+  forall (st st' : bstore A) k now now' descr dur quota reads e r,
+  N.of_nat (length reads) + 1 < 2 ^ 64 ->
+  write_blob aeqb now st k descr dur quota reads e = (st', r) ->
+  failed_midway r ->
+  exists err, read_blob now' st' k = RFail err.
+Proof. exact (interrupted_not_complete_proved aeqb aeqb_refl). Qed.
+
+(* A write touches only partitions of its own key ... *)
+Theorem write_frame :
+  forall (st st' : bstore A) k now descr dur quota reads e r pk,
+  write_blob aeqb now st k descr dur quota reads e = (st', r) ->
+  (forall b, b <= N.of_nat (length reads) + 1 -> pk <> pkey k b) ->
+  part st' pk = part st pk.
+Proof. exact (write_frame_proved aeqb). Qed.
+
+(* ... and partitions of different keys are different: BLOBs never see each other's data. *)
+Theorem key_isolation :
+  forall (st st' : bstore A) k k' now descr dur quota reads e r b',
+  wf_key k -> wf_key k' -> k <> k' -> b' < 2 ^ 64 -> N.of_nat (length reads) + 1 < 2 ^ 64 ->
+  write_blob aeqb now st k descr dur quota reads e = (st', r) ->
+  part st' (pkey k' b') = part st (pkey k' b').
+Proof. exact (key_isolation_proved aeqb). Qed.
+
+End C15.
+
+Theorem pkey_injective : forall k k' b b', wf_key k -> wf_key k' -> b < 2 ^ 64 -> b' < 2 ^ 64 ->
+  pkey k b = pkey k' b' -> k = k' /\ b = b'.
+Proof. exact pkey_inj. Qed.
+
+(* non-vacuity: a concrete multi-chunk write on a non-empty store meets the hypotheses and computes *)
+Example read_write_id_nonvacuous :
+  let k := KTemp 1 2 [97; 98] in
+  let other := KPersistent 1 2 7 in
+  let reads := [mkChunk 3 11; mkChunk 1 12; mkChunk 102400 13] in
+  let st0 := fst (write_blob N.eqb 0 [] other 5 0 None [mkChunk 2 1] EndEOF) in
+  let st1 := fst (write_blob N.eqb 1000 st0 k 9 1 (Some 102404) reads EndEOF) in
+  read_blob 86400999%Z st1 k = ROk (mkState 9 102404 StCompleted false 1) reads
+  /\ read_blob 86401000%Z st1 k = RFail RNotFound
+  /\ read_blob 86401000%Z st1 other = ROk (mkState 5 2 StCompleted false 0) [mkChunk 2 1].
+Proof. vm_compute. repeat split. Qed.
+
+Example interrupted_nonvacuous :
+  let k := KPersistent 1 2 7 in
+  let '(st1, r) := write_blob N.eqb 0 [] k 5 0 (Some 3) [mkChunk 2 1; mkChunk 2 2] EndEOF in
+  r = WFail 4 WQuota /\ read_blob 0%Z st1 k = RFail RCorrupted.
+Proof. vm_compute. split; reflexivity. Qed.
+
+Print Assumptions read_write_id.
+Print Assumptions interrupted_not_complete.
+Print Assumptions write_frame.
+Print Assumptions key_isolation.
+Print Assumptions pkey_injective.
